@@ -14,8 +14,8 @@ The model follows the code that exists, including its quirks:
   attribute whose value does not lie inside the body, so no accepted packet gets there: `decode_accepted_fits`).
 * the decode loop accepts a message without MESSAGE-INTEGRITY under a key, skips everything but FINGERPRINT after
   MESSAGE-INTEGRITY, and returns at FINGERPRINT without looking at what follows.
-* `QString::fromUtf8(const QByteArray &)` of Qt 5 cuts at the first NUL, drops a leading BOM and replaces
-  malformed sequences (`Qx.Utf8.qtFromUtf8`); string attributes are held as the UTF-8 bytes of the QString.
+* `QString::fromUtf8(data, size)` of Qt 5 drops a leading BOM and replaces malformed sequences (`qtStr`; since /repo
+  commit bdc4d1e an embedded NUL is kept); string attributes are held as the UTF-8 bytes of the QString.
 
 Constants come from the generated file `Qx.Generated.StunConsts`, the CRC table from `Qx.Generated.CrcTable`.
 The hash function is a parameter `H` everywhere (the driver instantiates SHA-1).
@@ -221,14 +221,14 @@ def withFP (fp : Bool) (b : Bytes) : Bytes :=
 def encodeRaw (H : Bytes → Bytes) (m : Msg) (key : Bytes) (fp : Bool) : Bytes :=
   withFP fp (withMI H key (plain m))
 
-/-- `QXmppStunMessage::encode(key, addFingerprint)`: since /repo commit e55f2fd it refuses (empty result and a warning) a
+/-- `QXmppStunMessage::encode(key, addFingerprint)`: since /repo commit 910f587 it refuses (empty result and a warning) a
 message whose attributes do not fit the 16-bit length field instead of emitting one with wrapped lengths -/
 def encode (H : Bytes → Bytes) (m : Msg) (key : Bytes) (fp : Bool) : Bytes :=
   let b := encodeRaw H m key fp
   if b.length - Stun.headerSize > 0xffff then [] else b
 
 /-- `setReservationToken`: exactly 8 bytes — truncated, or padded with zero bytes (`leftJustified(8, 0, true)`, /repo
-commit e877112; `resize(8)` left the new bytes uninitialised before) -/
+commit e93be92; `resize(8)` left the new bytes uninitialised before) -/
 def setReservationToken (tok : Bytes) : Bytes := (tok ++ zeros (8 - tok.length)).take 8
 
 /-! ## QDataStream reads -/
@@ -258,8 +258,10 @@ def rdResize (old : Bytes) (n : Nat) (s : Bytes) : Bytes × Bytes :=
   let got := s.take n
   (got ++ ((old ++ zeros (n - old.length)).take n).drop got.length, s.drop n)
 
-/-- `QString::fromUtf8(QByteArray)` followed by `toUtf8()`: how a string attribute's bytes come back -/
-def qtStr (bs : Bytes) : Bytes := Utf8.encode (Utf8.qtFromUtf8 bs)
+/-- `QString::fromUtf8(ba.constData(), ba.size())` followed by `toUtf8()`: how a string attribute's bytes come back — a
+leading BOM is dropped, malformed sequences become U+FFFD; an embedded NUL is kept (since /repo commit bdc4d1e; the
+`QByteArray` overload used before cut the value at the first NUL) -/
+def qtStr (bs : Bytes) : Bytes := Utf8.encode (Utf8.decodeLossy (Utf8.stripBom bs))
 
 /-! ## decode -/
 
@@ -514,8 +516,7 @@ def Addr.WF (a : Addr) : Prop :=
 instance (a : Addr) : Decidable a.WF := by
   unfold Addr.WF; cases a.host <;> exact inferInstance
 
-/-- a string that `QString::fromUtf8(QByteArray)` gives back unchanged (well-formed UTF-8 without NUL and
-without a leading BOM) -/
+/-- a string that `QString::fromUtf8` gives back unchanged (well-formed UTF-8 without a leading BOM) -/
 def StrOK (bs : Bytes) : Prop := qtStr bs = bs
 
 instance (bs : Bytes) : Decidable (StrOK bs) := by unfold StrOK; exact inferInstance
@@ -533,9 +534,9 @@ instance {α : Type} (o : Option α) (p : α → Prop) [∀ v, Decidable (p v)] 
 * `type`, `cookie`, `changeRequest`, `priority`, `channelNumber`, `lifetime`, `requestedTransport`: **cannot be violated** —
   they only say that the model's `Nat` is in the range of the C++ type (`quint16`, `quint32`, `quint8`).
 * `reservationToken` (8 bytes): **cannot be violated** through `setReservationToken` (model: `setReservationToken`, it
-  truncates or zero-pads to 8; before /repo commit e877112 the padding was uninitialised memory).
+  truncates or zero-pads to 8; before /repo commit e93be92 the padding was uninitialised memory).
 * `size` (in `WFMsg`: attributes below 65536 - 32 bytes): **can be violated** with the setters (`setData` takes any byte
-  array) — `encode` then refuses (empty result; before /repo commit e55f2fd the lengths wrapped and the packet did not
+  array) — `encode` then refuses (empty result; before /repo commit 910f587 the lengths wrapped and the packet did not
   decode, `C14:oversized-not-decodable`).  The round trip is proved for *every message `encode` accepts*
   (`stun_decode_encode_accepted`), `size` is only the convenient sufficient condition.  Nothing smaller is excluded: strings longer than RFC 5389 allows (USERNAME
   513, REALM/NONCE/SOFTWARE 763 bytes) are inside `WFMsg` and round-trip.
@@ -581,12 +582,12 @@ structure WFMsg (m : Msg) : Prop extends WFFields m where
   size : (body m).length + 32 < 65536
 
 /-- What a message looks like after `decode (encode m)`: string attributes went through
-`QString::fromUtf8(const QByteArray &)` (cut at the first NUL, leading BOM dropped); everything else is unchanged. -/
+`QString::fromUtf8` (leading BOM dropped, malformed sequences replaced); everything else is unchanged. -/
 def view (m : Msg) : Msg :=
   { m with errorPhrase := qtStr m.errorPhrase, realm := m.realm.map qtStr,
            software := m.software.map qtStr, username := m.username.map qtStr }
 
-/-- every string of the message comes back unchanged (well-formed UTF-8, no NUL, no leading BOM) -/
+/-- every string of the message comes back unchanged (well-formed UTF-8, no leading BOM) -/
 def StrsOK (m : Msg) : Prop :=
   StrOK m.errorPhrase ∧ optAll m.realm StrOK ∧ optAll m.software StrOK ∧ optAll m.username StrOK
 
